@@ -98,6 +98,8 @@ def large_molecules(run, mod):
     from concurrent.futures import ThreadPoolExecutor
     sizes = [257, 65539, 70001] if run.tier == "quick" else [100, 255, 256, 257, 300, 65534, 65535, 65536, 65537, 65538, 65539, 65540, 70001, 131072, 131074, 131076, 196611, 300000]
     jobs = [(f, n) for f in LARGE_FAMILIES for n in sizes if not (f in HUBS and n > 66000)]
+    # just past 2^20 items of one kind, for the families whose cost is linear
+    jobs += [(f, 1048600) for f in ("chain", "dots", "dot_branches", "comb", "brackets", "tail_branch", "dot_rings")]
     def one(job):
         f, n = job
         try:
